@@ -1,5 +1,6 @@
 //! SST damage: `Sst::new` + forward walk + backward walk + `load` of every original key +
-//! `metadata()` + `fast_setsum()` on the damaged file, compared with the pristine file.
+//! `metadata()` + `fast_setsum()` + a few generated cursor programs (seeks, steps, direction
+//! reversals) on the damaged file, compared with the pristine file.
 
 use std::path::{Path, PathBuf};
 
@@ -8,7 +9,7 @@ use serde::{Deserialize, Serialize};
 
 use sst::Cursor;
 use vcore::gens::show;
-use vcore::refcursor::Entry;
+use vcore::refcursor::{CursorOp, Entry, RefCursor};
 use vcore::{Ctx, Failure, Outcome, Tier};
 use vsst::tables::{self, BuildOpts, Table};
 
@@ -23,6 +24,107 @@ pub const HUGE: usize = 64 << 20;
 pub struct SstSpec {
     pub table: Table,
     pub opts: BuildOpts,
+    /// cursor programs run on every damaged version of the file (absent in cases saved before
+    /// programs existed)
+    #[serde(default)]
+    pub programs: Vec<Vec<POp>>,
+}
+
+/// One cursor call; seek targets are selected among the neighbours of the table's keys.
+#[derive(Clone, Debug, PartialEq, Eq, Serialize, Deserialize)]
+pub enum POp {
+    First,
+    Last,
+    Seek(u16),
+    Next,
+    Prev,
+}
+
+/// Seek targets: every key of the table and its byte-order neighbours, the empty key and a key
+/// above every universe.
+pub fn seek_targets(entries: &[Entry]) -> Vec<Vec<u8>> {
+    let mut t: Vec<Vec<u8>> = vec![vec![], vec![0xff; 12]];
+    for k in tables::keys_of(entries) {
+        t.extend(vcore::gens::neighbours(&k));
+    }
+    t.sort();
+    t.dedup();
+    t
+}
+
+/// Resolve a generated program; the position of a fresh cursor is not documented, so a program
+/// always starts with an absolute call.
+pub fn resolve(prog: &[POp], targets: &[Vec<u8>]) -> Vec<CursorOp> {
+    let mut out: Vec<CursorOp> = prog
+        .iter()
+        .map(|op| match op {
+            POp::First => CursorOp::SeekToFirst,
+            POp::Last => CursorOp::SeekToLast,
+            POp::Seek(s) => CursorOp::Seek(targets[vcore::gens::sel(*s, targets.len())].clone()),
+            POp::Next => CursorOp::Next,
+            POp::Prev => CursorOp::Prev,
+        })
+        .collect();
+    if matches!(out.first(), Some(CursorOp::Next) | Some(CursorOp::Prev)) {
+        out.insert(0, CursorOp::SeekToFirst);
+    }
+    out
+}
+
+fn program_strategy() -> impl Strategy<Value = Vec<POp>> {
+    let first = prop_oneof![1 => Just(POp::First), 1 => Just(POp::Last), 4 => any::<u16>().prop_map(POp::Seek)];
+    let rest = prop_oneof![35 => Just(POp::Next), 32 => Just(POp::Prev), 18 => any::<u16>().prop_map(POp::Seek), 4 => Just(POp::First), 5 => Just(POp::Last)];
+    (first, prop::collection::vec(rest, 0..14)).prop_map(|(f, mut r)| {
+        r.insert(0, f);
+        r
+    })
+}
+
+/// What one program did on a file.
+#[derive(Clone, Debug, PartialEq, Eq)]
+pub enum ProgRes {
+    /// every call returned Ok and left the cursor where the reference is
+    Agreed,
+    /// call #n returned an error; the calls before it agreed (the cursor is not used afterwards)
+    ErrAt(usize, String),
+    /// call #n returned Ok but the cursor disagrees with the reference
+    Mismatch(usize, String),
+}
+
+/// Run `prog` on a fresh cursor, comparing with the reference (over the PRISTINE entries) after
+/// every call: position, and key() / value() against key_value().
+pub fn run_program<C: Cursor>(c: &mut C, reference: &mut RefCursor, prog: &[CursorOp]) -> ProgRes {
+    reference.pos = vcore::refcursor::Pos::BeforeFirst;
+    for (i, op) in prog.iter().enumerate() {
+        if let Err(e) = tables::apply(c, op) {
+            return ProgRes::ErrAt(i, short(&e));
+        }
+        reference.apply(op);
+        let got = tables::current(c);
+        let want = reference.current();
+        if got.as_ref() != want {
+            return ProgRes::Mismatch(i, format!("after call #{i} {} of the program {} the cursor is at {} but the pristine file's entries put it at {}", show_op(op), show_prog(&prog[..=i]), show_e(got.as_ref()), show_e(want)));
+        }
+        let k = c.key().map(|k| (k.key.to_vec(), k.timestamp));
+        if k != want.map(|e| (e.0.clone(), e.1)) || c.value().map(|v| v.to_vec()) != want.and_then(|e| e.2.clone()) {
+            return ProgRes::Mismatch(i, format!("after call #{i} {} key() / value() disagree with key_value()", show_op(op)));
+        }
+    }
+    ProgRes::Agreed
+}
+
+fn show_op(op: &CursorOp) -> String {
+    match op {
+        CursorOp::Seek(k) => format!("seek({})", show(k)),
+        CursorOp::SeekToFirst => "seek_to_first".into(),
+        CursorOp::SeekToLast => "seek_to_last".into(),
+        CursorOp::Next => "next".into(),
+        CursorOp::Prev => "prev".into(),
+    }
+}
+
+fn show_prog(p: &[CursorOp]) -> String {
+    format!("[{}]", p.iter().map(show_op).collect::<Vec<_>>().join(", "))
 }
 
 #[derive(Clone, Debug, Default, PartialEq, Eq)]
@@ -52,13 +154,14 @@ pub struct SstObs {
     pub loads: Vec<Load>,
     pub meta: Option<Result<Meta, String>>,
     pub fast: Option<[u8; 32]>,
+    pub programs: Vec<ProgRes>,
 }
 
 fn short(e: &handled::SError) -> String {
     vcore::truncate(&format!("{e:?}").replace('\n', " "), 240)
 }
 
-fn walk<C: Cursor>(c: &mut C, forward: bool, cap: usize) -> Walk {
+pub fn walk<C: Cursor>(c: &mut C, forward: bool, cap: usize) -> Walk {
     let mut w = Walk::default();
     let r = if forward { c.seek_to_first() } else { c.seek_to_last() };
     if let Err(e) = r {
@@ -83,7 +186,7 @@ fn walk<C: Cursor>(c: &mut C, forward: bool, cap: usize) -> Walk {
 }
 
 /// Everything the property lets an observer see of the SST at `path`.
-pub fn observe(path: &Path, probes: &[(Vec<u8>, u64)], cap: usize) -> SstObs {
+pub fn observe(path: &Path, probes: &[(Vec<u8>, u64)], cap: usize, programs: &[Vec<CursorOp>], reference: &mut RefCursor) -> SstObs {
     let mut o = SstObs::default();
     let table = match sst::Sst::<sst::file_manager::FileHandle>::new(sst::SstOptions::default(), path) {
         Ok(t) => t,
@@ -106,6 +209,9 @@ pub fn observe(path: &Path, probes: &[(Vec<u8>, u64)], cap: usize) -> SstObs {
         Err(e) => Err(short(&e)),
     });
     o.fast = Some(table.fast_setsum().digest());
+    for prog in programs {
+        o.programs.push(run_program(&mut table.cursor(), reference, prog));
+    }
     o
 }
 
@@ -198,6 +304,32 @@ pub fn judge(pristine: &SstObs, got: &SstObs, probes: &[(Vec<u8>, u64)], what: &
     if got.loads.len() != pristine.loads.len() {
         fail("harness:probe-count", "probe count differs".into());
     }
+    // cursor programs: every call is an error (the cursor is dropped then) or agrees with the
+    // reference cursor over the pristine entries
+    let (mut prog_err0, mut prog_err_later, mut prog_ok) = (false, false, false);
+    for r in got.programs.iter() {
+        match r {
+            ProgRes::Agreed => prog_ok = true,
+            ProgRes::ErrAt(0, _) => prog_err0 = true,
+            ProgRes::ErrAt(..) => prog_err_later = true,
+            ProgRes::Mismatch(_, msg) => fail("sst:program-different-data", msg.clone()),
+        }
+    }
+    if got.programs.len() != pristine.programs.len() {
+        fail("harness:program-count", "program count differs".into());
+    }
+    if prog_err0 || prog_err_later {
+        later_err = true;
+    }
+    if prog_ok {
+        v.labels.push("program:every-call-agrees".into());
+    }
+    if prog_err0 {
+        v.labels.push("program:error-at-first-call".into());
+    }
+    if prog_err_later {
+        v.labels.push("program:error-after-agreeing-calls".into());
+    }
     // metadata
     let mut r_o_hit = false;
     match (&pristine.meta, &got.meta) {
@@ -269,6 +401,9 @@ pub struct SstPristine {
     pub probes: Vec<(Vec<u8>, u64)>,
     pub obs: SstObs,
     pub entries: usize,
+    pub programs: Vec<Vec<CursorOp>>,
+    /// the reference cursor over the pristine entries (one copy per file, re-positioned per program)
+    pub reference: std::cell::RefCell<RefCursor>,
 }
 
 pub struct SstDamage;
@@ -295,9 +430,9 @@ impl Target for SstDamage {
         // tables of >= 8 KiB: mostly large tables with large values
         let table = prop_oneof![4 => tables::table(24, 5, true).boxed(), 1 => tables::table(12, 5, false).boxed()];
         let block_size = prop_oneof![6 => Just(4096u32), 1 => Just(8192u32), 1 => Just(65536u32)];
-        (table, tables::build_opts(), block_size).prop_map(|(table, mut opts, block_size)| {
+        (table, tables::build_opts(), block_size, prop::collection::vec(program_strategy(), 3)).prop_map(|(table, mut opts, block_size, programs)| {
             opts.block_size = block_size;
-            SstSpec { table, opts }
+            SstSpec { table, opts, programs }
         }).boxed()
     }
     fn plan_strategy(&self) -> BoxedStrategy<Vec<Dmg>> {
@@ -316,14 +451,21 @@ impl Target for SstDamage {
         let bytes = std::fs::read(&path).map_err(|e| format!("read:{e}"))?;
         let layout = formats::sst_layout(&bytes).unwrap_or_else(|e| panic!("the independent walker cannot tag the pristine sst: {e}"));
         let probes = probes_of(&spec.table.entries);
-        let obs = observe(&path, &probes, spec.table.entries.len() + 2);
+        let targets = seek_targets(&spec.table.entries);
+        let programs: Vec<Vec<CursorOp>> = spec.programs.iter().map(|p| resolve(p, &targets)).collect();
+        let mut reference = RefCursor::new(spec.table.entries.clone());
+        let obs = observe(&path, &probes, spec.table.entries.len() + 2, &programs, &mut reference);
         let _ = std::fs::remove_file(&path);
         // the pristine file must read back as the model (C10's business; a mismatch would make every
         // comparison below meaningless, so it is reported as its own failure)
         if obs.open_err.is_some() || obs.fwd.err.is_some() || obs.fwd.got != spec.table.entries {
             panic!("pristine file does not read back as generated: open={:?} fwd.err={:?} got {} of {} entries", obs.open_err, obs.fwd.err, obs.fwd.got.len(), spec.table.entries.len());
         }
-        Ok(SstPristine { dir, bytes, layout, probes, obs, entries: spec.table.entries.len() })
+        // ... and obey the reference cursor under every program (C10's business as well)
+        if let Some(bad) = obs.programs.iter().find(|r| **r != ProgRes::Agreed) {
+            panic!("pristine file disagrees with the reference cursor under a generated program: {bad:?}");
+        }
+        Ok(SstPristine { dir, bytes, layout, probes, obs, entries: spec.table.entries.len(), programs, reference: std::cell::RefCell::new(reference) })
     }
 
     fn regions<'a>(&self, p: &'a SstPristine) -> &'a formats::Regions {
@@ -359,11 +501,18 @@ impl Target for SstDamage {
         let _ = std::fs::remove_file(&path);
         std::fs::write(&path, &damaged).expect("write damaged file");
         alloc::arm();
-        let got = observe(&path, &p.probes, p.entries + 2);
+        let got = observe(&path, &p.probes, p.entries + 2, &p.programs, &mut p.reference.borrow_mut());
         let peak = alloc::disarm();
         let _ = std::fs::remove_file(&path);
-        let len_changed = applied.iter().any(|a| a.effective && a.kind != "flip" && a.kind != "set");
-        let r_o_touched = applied.iter().any(|a| a.effective && formats::in_final_block(&a.region));
+        if p.programs.iter().any(|pr| tables::has_reversal(pr)) {
+            o.label("file:program-with-direction-reversal");
+        }
+        if p.programs.iter().any(|pr| pr.windows(2).any(|w| matches!((&w[0], &w[1]), (CursorOp::Seek(_), CursorOp::Prev)))) {
+            o.label("file:program-with-seek-then-prev");
+        }
+        let len_changed = applied.iter().any(|a| a.effective && damage::changes_length(a.kind));
+        // a run can start in one region and end in another: every class it overwrote counts
+        let r_o_touched = applied.iter().any(|a| a.effective && a.touched_classes(&p.layout.regions).iter().any(|c| formats::in_final_block(c)));
         let v = judge(&p.obs, &got, &p.probes, &what, len_changed, r_o_touched, ctx.strict);
         for l in v.labels {
             o.label(l);
